@@ -233,6 +233,7 @@ private:
     void escape_string(const CharT* s,
                        std::size_t length,
                        CharT quote_char, CharT quote_escape_char,
+                       bool quoted,
                        string_type& sink)
     {
         const CharT* begin = s;
@@ -244,6 +245,11 @@ private:
             {
                 sink.push_back(quote_escape_char); 
                 sink.push_back(quote_char);
+            }
+            else if (quoted && c == quote_escape_char) // inside quotes the escape character escapes itself
+            {
+                sink.push_back(quote_escape_char); 
+                sink.push_back(quote_escape_char);
             }
             else
             {
@@ -1321,7 +1327,7 @@ private:
             quote = true;
             str.push_back(quote_char_);
         }
-        escape_string(s, length, quote_char_, quote_escape_char_, str);
+        escape_string(s, length, quote_char_, quote_escape_char_, quote, str);
         if (quote)
         {
             str.push_back(quote_char_);
